@@ -58,7 +58,9 @@ Init0 ==
 
 -----------------------------------------------------------------------------
 (* Token strings presented to the provider (C08): tok = [form, id]            *)
-TokForms == {"issued", "flipIV", "flipBody", "trunc", "rekeyed", "jwtOtherIss", "jwtNone", "jwtForeign", "garbage"}
+\* jwtForeign: a JWT for this issuer signed with a key nobody published, under the key id of the provider's current key ;
+\* jwtUnknownKid: the same under a key id the provider never published (e.g. a key rotated out long ago) ; jwtNoKid: without key id
+TokForms == {"issued", "flipIV", "flipBody", "trunc", "rekeyed", "jwtOtherIss", "jwtNone", "jwtForeign", "jwtUnknownKid", "jwtNoKid", "garbage"}
 
 LiveAT(tok)  == tok.form = "issued" /\ Has(toks, tok.id) /\ ~toks[tok.id].dead
 LiveRT(name) == Has(rts, name) /\ rts[name].live
